@@ -1,4 +1,4 @@
-(* C10 — proofs about the section layout model: alignment arithmetic, flatten, code_size. *)
+(* C10 — proofs about the section layout model: alignment arithmetic, flatten_mid, code_size. *)
 From Coq Require Import ZArith List Bool Lia.
 From Verif Require Import Sections.SectionModel.
 Import ListNotations.
@@ -111,7 +111,7 @@ Lemma real_size_set_off s o : real_size (set_off s o) = real_size s.
 Proof. reflexivity. Qed.
 
 (* ------------------------------------------------------------------ what a layout is *)
-(* `laid off l`: l is laid out from running offset off exactly as flatten's pass 2 does it: an empty section sits at the
+(* `laid off l`: l is laid out from running offset off exactly as flatten_mid's pass 2 does it: an empty section sits at the
    running offset, a non-empty one at the running offset aligned up (without wrapping), nothing leaves 64 bits *)
 Fixpoint laid (off : Z) (l : list section) : Prop :=
   match l with
@@ -244,7 +244,7 @@ Proof.
   rewrite Z.mod_small by lia. cbn [orb andb]. apply IH; [assumption|lia|assumption].
 Qed.
 
-(* before flatten: code_size walks exactly what pass 1 checks and pass 2 assigns *)
+(* before flatten_mid: code_size walks exactly what pass 1 checks and pass 2 assigns *)
 Lemma cs_walk_pass1_ok l : forall off, Forall wf_sec l -> 0 <= off < W64 -> pass1 off l = true ->
   cs_walk true off false l = (lend off (assign off l), false).
 Proof.
@@ -275,7 +275,7 @@ Qed.
 (* ------------------------------------------------------------------ pass 2b: extending the predecessors *)
 Definition core (s : section) := (sid s, sorder s, salign s, sbsize s, sdata s, sname s).
 
-(* how flatten's extension step may change a section: nothing but the virtual size, which only grows, and only for
+(* how flatten_mid's extension step may change a section: nothing but the virtual size, which only grows, and only for
    non-empty sections *)
 Definition ext_rel (s s' : section) : Prop :=
   core s' = core s /\ soff s' = soff s /\ (real_size s = 0 -> s' = s) /\ svsize s <= svsize s' /\
@@ -398,10 +398,10 @@ Proof.
     destruct (real_size a =? 0); cbn [fst]; eexists; rewrite app_comm_cons; reflexivity.
 Qed.
 
-(* ------------------------------------------------------------------ flatten *)
+(* ------------------------------------------------------------------ flatten_mid *)
 Definition wf_holder (h : holder) : Prop := Forall wf_sec h.
 
-(* what flatten may change in a section: offset and virtual size (which never shrinks, and stays for empty sections) *)
+(* what flatten_mid may change in a section: offset and virtual size (which never shrinks, and stays for empty sections) *)
 Definition flat_rel (s s' : section) : Prop :=
   core s' = core s /\ svsize s <= svsize s' /\ (real_size s = 0 -> svsize s' = svsize s) /\ real_size s <= real_size s'.
 
@@ -419,11 +419,11 @@ Proof.
   intros H. induction l1 as [|a t IH]; intros l2 l3 H1 H2; inversion H1; subst; inversion H2; subst; constructor; eauto.
 Qed.
 
-Lemma flatten_ok_inv h h' : flatten h = (EOk, h') -> pass1 0 h = true /\ h' = fst (extend (assign 0 h)).
-Proof. unfold flatten. destruct (pass1 0 h); intros E; inversion E; auto. Qed.
+Lemma flatten_ok_inv h h' : flatten_mid h = (EOk, h') -> pass1 0 h = true /\ h' = fst (extend (assign 0 h)).
+Proof. unfold flatten_mid. destruct (pass1 0 h); intros E; inversion E; auto. Qed.
 
-Lemma flatten_fail_iff h : pass1 0 h = false <-> flatten h = (ETooLarge, h).
-Proof. unfold flatten. destruct (pass1 0 h); split; intros E; try reflexivity; try discriminate. Qed.
+Lemma flatten_fail_iff h : pass1 0 h = false <-> flatten_mid h = (ETooLarge, h).
+Proof. unfold flatten_mid. destruct (pass1 0 h); split; intros E; try reflexivity; try discriminate. Qed.
 
 Record flattened (h h' : holder) : Prop := mkFlattened {
   fl_pass : pass1 0 h = true;
@@ -436,7 +436,7 @@ Record flattened (h h' : holder) : Prop := mkFlattened {
   fl_rel : Forall2 flat_rel h h'
 }.
 
-Lemma flatten_flattened h h' : wf_holder h -> flatten h = (EOk, h') -> flattened h h'.
+Lemma flatten_flattened h h' : wf_holder h -> flatten_mid h = (EOk, h') -> flattened h h'.
 Proof.
   intros Hwf E. destruct (flatten_ok_inv h h' E) as [Hp ->].
   pose proof W64_pos. pose proof (assign_laid h 0 Hwf ltac:(lia) Hp) as Hl.
@@ -474,7 +474,7 @@ Lemma ext_rel_nonempty s s' : wf_sec s -> ext_rel s s' -> real_size s' <> 0 -> r
 Proof. intros Hw [_ [_ [Hz _]]] Hne E. rewrite (Hz E) in Hne. contradiction. Qed.
 
 (* every non-empty section is aligned *)
-Lemma flatten_offsets_aligned h h' : wf_holder h -> flatten h = (EOk, h') ->
+Lemma flatten_offsets_aligned h h' : wf_holder h -> flatten_mid h = (EOk, h') ->
   forall s, In s h' -> real_size s <> 0 -> aligned (soff s) (salign s).
 Proof.
   intros Hwf E s' Hin Hne. destruct (flatten_flattened h h' Hwf E) as [Hp _ Hwf' Hl _ _ Hext _].
@@ -504,14 +504,14 @@ Proof.
   destruct Hab as [_ [O _]]. rewrite O, IH. reflexivity.
 Qed.
 
-Lemma flatten_keeps_assigned_offsets h h' : wf_holder h -> flatten h = (EOk, h') ->
+Lemma flatten_keeps_assigned_offsets h h' : wf_holder h -> flatten_mid h = (EOk, h') ->
   map soff h' = map soff (assign 0 h).
 Proof.
   intros Hwf E. destruct (flatten_flattened h h' Hwf E) as [_ _ _ _ _ _ Hext _]. apply ext_rel_offsets. assumption.
 Qed.
 
 (* order and disjointness, any two sections a before b in by-order sequence *)
-Lemma flatten_no_overlap h h' : wf_holder h -> flatten h = (EOk, h') ->
+Lemma flatten_no_overlap h h' : wf_holder h -> flatten_mid h = (EOk, h') ->
   forall l1 a l2 b, h' = l1 ++ a :: l2 -> In b l2 ->
   soff a <= soff b /\ soff a + sbsize a <= soff b /\ (real_size a <> 0 -> real_size b <> 0 -> soff a + real_size a <= soff b).
 Proof.
@@ -546,20 +546,20 @@ Proof.
   cbn [snd] in Hs. subst f. reflexivity.
 Qed.
 
-Lemma code_size_after h h' : wf_holder h -> flatten h = (EOk, h') -> code_size h' = lend 0 (assign 0 h).
+Lemma code_size_after h h' : wf_holder h -> flatten_mid h = (EOk, h') -> code_size h' = lend 0 (assign 0 h).
 Proof.
   intros Hwf E. destruct (flatten_flattened h h' Hwf E) as [_ _ Hwf' _ Hlne Hend _ _].
   unfold code_size. rewrite (cs_walk_laid_ne h' 0 Hwf' ltac:(lia) Hlne). congruence.
 Qed.
 
-(* the estimate taken before flatten is the size reported after it *)
-Lemma code_size_stable h h' : wf_holder h -> flatten h = (EOk, h') -> code_size h' = code_size h.
+(* the estimate taken before flatten_mid is the size reported after it *)
+Lemma code_size_stable h h' : wf_holder h -> flatten_mid h = (EOk, h') -> code_size h' = code_size h.
 Proof.
   intros Hwf E. rewrite (code_size_after h h' Hwf E). destruct (flatten_ok_inv h h' E) as [Hp _].
   symmetry. apply code_size_before; assumption.
 Qed.
 
-Lemma code_size_is_end h h' : wf_holder h -> flatten h = (EOk, h') ->
+Lemma code_size_is_end h h' : wf_holder h -> flatten_mid h = (EOk, h') ->
   forall l1 s, h' = l1 ++ [s] -> code_size h' = soff s + real_size s.
 Proof.
   intros Hwf E l1 s Eh. rewrite (code_size_after h h' Hwf E).
@@ -572,7 +572,7 @@ Proof.
     rewrite lend_app. reflexivity.
 Qed.
 
-Lemma code_size_bounds_all h h' : wf_holder h -> flatten h = (EOk, h') ->
+Lemma code_size_bounds_all h h' : wf_holder h -> flatten_mid h = (EOk, h') ->
   forall s, In s h' -> 0 <= soff s /\ soff s + real_size s <= code_size h' /\ code_size h' < W64.
 Proof.
   intros Hwf E s' Hin. rewrite (code_size_after h h' Hwf E).
@@ -586,4 +586,47 @@ Proof.
   destruct (Z.eq_dec (real_size s') 0) as [E0|Hne].
   - destruct Hr as [_ [O _]]. lia.
   - destruct (laid_ne_in_ge 0 h' s' Hwf' Hlne Hin Hne). destruct Hr as [_ [O _]]. lia.
+Qed.
+
+(* ------------------------------------------------------------------ the backward step (settle) and the final flatten *)
+Definition off_only (a b : section) : Prop := b = set_off a (soff b).
+
+Lemma settle_off_only l e : Forall2 off_only l (fst (settle l e)).
+Proof.
+  induction l as [|s t IH]; cbn [settle]; [constructor|]. destruct (settle t e) as [t' nxt]. cbn [fst] in IH.
+  destruct (real_size s =? 0); cbn [fst]; constructor; try assumption; unfold off_only; [reflexivity|destruct s; reflexivity].
+Qed.
+
+Lemma flatten_final_inv h h' : flatten h = (EOk, h') ->
+  exists m, flatten_mid h = (EOk, m) /\ h' = fst (settle m (run_end 0 (assign 0 h))).
+Proof.
+  unfold flatten, flatten_mid. destruct (pass1 0 h); intros E; inversion E. eexists. split; reflexivity.
+Qed.
+
+Lemma flatten_final_fail h : flatten h = (ETooLarge, h) <-> pass1 0 h = false.
+Proof. unfold flatten. destruct (pass1 0 h); split; intros E; try reflexivity; discriminate. Qed.
+
+Lemma off_only_wf l l' : Forall2 off_only l l' -> Forall wf_sec l -> Forall wf_sec l'.
+Proof.
+  intros H. induction H as [|a b la lb Hab _ IH]; intros Hw; [constructor|]. inversion Hw; subst.
+  constructor; [|apply IH; assumption]. rewrite Hab. assumption.
+Qed.
+
+Lemma off_only_flat_rel l l' : Forall2 off_only l l' -> Forall2 (fun a b => flat_rel a b /\ real_size b = real_size a) l l'.
+Proof.
+  intros H. induction H as [|a b la lb Hab _ IH]; constructor; [|assumption]. rewrite Hab.
+  split; [|reflexivity]. unfold flat_rel. split; [reflexivity|]. split; [cbn; lia|]. split; [intros; reflexivity|].
+  rewrite real_size_set_off. lia.
+Qed.
+
+(* flatten's effect on the fields other than the offset *)
+Lemma flatten_final_rel h h' : wf_holder h -> flatten h = (EOk, h') -> Forall wf_sec h' /\ Forall2 flat_rel h h'.
+Proof.
+  intros Hwf E. destruct (flatten_final_inv h h' E) as [m [Em ->]].
+  destruct (flatten_flattened h m Hwf Em) as [_ _ Hwm _ _ _ _ Hrel].
+  pose proof (settle_off_only m (run_end 0 (assign 0 h))) as Ho.
+  split; [eapply off_only_wf; eassumption|].
+  eapply (Forall2_trans_rel flat_rel (fun a b => flat_rel a b /\ real_size b = real_size a) flat_rel); [|exact Hrel|apply off_only_flat_rel; exact Ho].
+  intros a b c [C1 [V1 [Z1 R1]]] [[C2 [V2 [Z2 R2]]] Er]. unfold flat_rel. split; [congruence|]. split; [lia|]. split; [|lia].
+  intros Hz. rewrite <- (Z1 Hz). apply Z2. unfold real_size in *. rewrite (Z1 Hz). unfold core in C1. inversion C1. lia.
 Qed.
